@@ -403,10 +403,10 @@ Proof.
   cbn [bind]. rewrite Hc. reflexivity.
 Qed.
 
-Lemma nsm_fwd ocw o p x Q R : (o =c NSM) || (p =c BN) = true -> forall m P,
+Lemma nsm_fwd (lg : bool) ocw o p x Q R : (o =c NSM) || (if lg then p =c BN else removed_by_x9 o) = true -> forall m P,
   (forall u, length P <= u < length P + m -> nth_error ocw u = Some o) ->
-  n0_nsm ocw (P ++ repeat p m ++ Q) (seq (length P) m ++ R) x
-  = n0_nsm ocw (P ++ repeat x m ++ Q) R x.
+  n0_nsm lg ocw (P ++ repeat p m ++ Q) (seq (length P) m ++ R) x
+  = n0_nsm lg ocw (P ++ repeat x m ++ Q) R x.
 Proof.
   intros Hc. induction m as [|m IH]; intros P Ho; [reflexivity|].
   cbn [seq repeat app n0_nsm]. rewrite (get_nth 408 ocw (length P) o) by (apply Ho; lia).
@@ -420,10 +420,10 @@ Proof.
   - intros u Hu. apply Ho. rewrite app_length in Hu. cbn [length] in Hu. lia.
 Qed.
 
-Lemma nsm_stop ocw w o p x R l :
+Lemma nsm_stop (lg : bool) ocw w o p x R l :
   (forall u, In u l -> nth_error ocw u = Some o /\ nth_error w u = Some p) -> l <> [] ->
-  (o =c NSM) || (p =c BN) = false ->
-  n0_nsm ocw w (l ++ R) x = Ok w.
+  (o =c NSM) || (if lg then p =c BN else removed_by_x9 o) = false ->
+  n0_nsm lg ocw w (l ++ R) x = Ok w.
 Proof.
   intros H Hl Hc. destruct l as [|u l]; [congruence|].
   destruct (H u (or_introl eq_refl)) as [H1 H2].
@@ -645,27 +645,27 @@ Proof.
     + injection H as <-. reflexivity.
 Qed.
 
-Lemma n0_nsm_length oc x : forall idxs v r,
-  n0_nsm oc v idxs x = Ok r -> length r = length v.
+Lemma n0_nsm_length lg oc x : forall idxs v r,
+  n0_nsm lg oc v idxs x = Ok r -> length r = length v.
 Proof.
   induction idxs as [|i rest IH]; intros v r H.
   - cbn in H. injection H as <-. reflexivity.
   - cbn [n0_nsm] in H. apply bind_ok in H as (o & Ho & H). apply bind_ok in H as (p & Hp & H).
-    destruct ((o =c NSM) || (p =c BN)).
+    destruct ((o =c NSM) || (if lg then p =c BN else removed_by_x9 o)).
     + apply bind_ok in H as (v' & Hv' & H). rewrite (IH _ _ H). eapply upd_length; eauto.
     + injection H as <-. reflexivity.
 Qed.
 
-Lemma n0_nsm_sim oc x : length oc = k -> forall idxs v r,
-  length v = k -> n0_nsm oc v idxs x = Ok r ->
-  n0_nsm (E oc) (E v) (X lens idxs) x = Ok (E r).
+Lemma n0_nsm_sim lg oc x : length oc = k -> forall idxs v r,
+  length v = k -> n0_nsm lg oc v idxs x = Ok r ->
+  n0_nsm lg (E oc) (E v) (X lens idxs) x = Ok (E r).
 Proof.
   intros Hoc. induction idxs as [|i rest IH]; intros v r Hl H.
   - cbn in H. injection H as <-. reflexivity.
   - cbn [n0_nsm] in H. apply bind_ok in H as (o & Ho & H). apply bind_ok in H as (c & Hc & H).
     pose proof (get_lt _ _ _ _ Hc) as Hi. rewrite Hl in Hi. apply get_ok in Hc. apply get_ok in Ho.
     rewrite X_cons.
-    destruct ((o =c NSM) || (c =c BN)) eqn:Ec.
+    destruct ((o =c NSM) || (if lg then c =c BN else removed_by_x9 o)) eqn:Ec.
     + destruct (char_split lens v i c Hl Hc)
         as (LA & L & LB & a & b & HL & Hv & HLA & Ha & Hb & HU & HUS & Hnth & HE & HP).
       apply bind_ok in H as (v' & Hv' & H).
@@ -674,7 +674,7 @@ Proof.
       { rewrite Hv', <- Hl, Hv, !app_length. reflexivity. }
       specialize (IH v' r Hl' H).
       unfold units. rewrite HE, HU, Hnth, <- HP.
-      rewrite (nsm_fwd (E oc) o c x _ _ Ec).
+      rewrite (nsm_fwd lg (E oc) o c x _ _ Ec).
       * replace (expand LA a ++ repeat x L ++ expand LB b) with (E v'); [exact IH|].
         rewrite Hv', HL, expand_app by lia. reflexivity.
       * intros u Hu. eapply nth_error_expand; eauto. lia.
@@ -1259,9 +1259,9 @@ Definition n0_apply (e0 : enc) (text0 : list N) (sq : irs) (oc pc : list bclass)
     bw <- iter_backwards_from runs (bp_start pair) (bp_start_run pair) ;;
     pc <- set_while_bn 395 pc bw cts ;;
     fw1 <- iter_forwards_from runs (bp_start pair + start_char_len) (bp_start_run pair) ;;
-    pc <- n0_nsm oc pc fw1 cts ;;
+    pc <- n0_nsm false oc pc fw1 cts ;;
     fw2 <- iter_forwards_from runs (bp_end pair + end_char_len) (bp_end_run pair) ;;
-    n0_nsm oc pc fw2 cts
+    n0_nsm false oc pc fw2 cts
   end.
 
 Definition n0_class (sq : irs) (pc : list bclass) (ecls : bclass) (pair : bracket_pair)
@@ -1276,7 +1276,7 @@ Definition n0_class (sq : irs) (pc : list bclass) (ecls : bclass) (pair : bracke
   else Ok None.
 
 Lemma n0_pair_eq e0 text0 sq oc ecls not_e pc pair :
-  n0_pair e0 iter_backwards_from text0 sq oc ecls not_e pc pair =
+  n0_pair e0 false iter_backwards_from text0 sq oc ecls not_e pc pair =
   (sub <- t_subrange 311 e0 text0 (bp_start pair) (bp_end pair) ;;
    start_char_len <- first_char_len e0 311 sub ;;
    fw <- iter_forwards_from (irs_runs sq) (bp_start pair + start_char_len) (bp_start_run pair) ;;
@@ -1337,16 +1337,16 @@ Proof.
   rewrite (set_while_bn_sim_bwd lens lens_pos 395 cts _ _ _ Hl2 Hpc3). cbn [bind].
   assert (Hl3 : length pc3 = k) by (rewrite (set_while_bn_length _ _ _ _ _ Hpc3); exact Hl2).
   rewrite (iter_forwards_sim lens _ _ _ _ Hrle Hfw1). cbn [bind].
-  rewrite (n0_nsm_sim lens lens_pos oc cts Hoc _ _ _ Hl3 Hpc4). cbn [bind].
-  assert (Hl4 : length pc4 = k) by (rewrite (n0_nsm_length _ _ _ _ _ Hpc4); exact Hl3).
+  rewrite (n0_nsm_sim lens lens_pos false oc cts Hoc _ _ _ Hl3 Hpc4). cbn [bind].
+  assert (Hl4 : length pc4 = k) by (rewrite (n0_nsm_length _ _ _ _ _ _ Hpc4); exact Hl3).
   rewrite (iter_forwards_sim lens _ _ _ _ Hrle Hfw2). cbn [bind].
-  split; [apply (n0_nsm_sim lens lens_pos oc cts Hoc _ _ _ Hl4 H)|].
-  rewrite (n0_nsm_length _ _ _ _ _ H). exact Hl4.
+  split; [apply (n0_nsm_sim lens lens_pos false oc cts Hoc _ _ _ Hl4 H)|].
+  rewrite (n0_nsm_length _ _ _ _ _ _ H). exact Hl4.
 Qed.
 
 Lemma n0_pair_sim sq oc ecls not_e pc pair r : length pc = k -> length oc = k -> seq_in k sq ->
-  n0_pair U32 iter_backwards_from cps sq oc ecls not_e pc pair = Ok r ->
-  n0_pair e iter_backwards_from text (useq lens sq) (E oc) ecls not_e (E pc) (upair lens pair) = Ok (E r)
+  n0_pair U32 false iter_backwards_from cps sq oc ecls not_e pc pair = Ok r ->
+  n0_pair e false iter_backwards_from text (useq lens sq) (E oc) ecls not_e (E pc) (upair lens pair) = Ok (E r)
   /\ length r = k.
 Proof.
   intros Hl Hoc Hsq H. rewrite n0_pair_eq in *.
@@ -1371,8 +1371,8 @@ Qed.
 
 Lemma n0_pairs_sim sq oc ecls not_e : length oc = k -> seq_in k sq -> forall pairs pc r,
   length pc = k ->
-  n0_pairs U32 iter_backwards_from cps sq oc ecls not_e pc pairs = Ok r ->
-  n0_pairs e iter_backwards_from text (useq lens sq) (E oc) ecls not_e (E pc) (map (upair lens) pairs)
+  n0_pairs U32 false iter_backwards_from cps sq oc ecls not_e pc pairs = Ok r ->
+  n0_pairs e false iter_backwards_from text (useq lens sq) (E oc) ecls not_e (E pc) (map (upair lens) pairs)
     = Ok (E r) /\ length r = k.
 Proof.
   intros Hoc Hsq. induction pairs as [|p pairs IH]; intros pc r Hl H.
